@@ -46,3 +46,4 @@ def run(ctx, R):
     a64hsem.rule_dsoff(ctx, R)
     rtpreserve.rule_a64(ctx, R)
     rtpreserve.rule_a64_rcplit(ctx, R)
+    rtpreserve.rule_const(ctx, R, 'a64')
